@@ -1,7 +1,7 @@
 #!/bin/sh
 # usage: tools/seedall.sh   -- try every stored seeded change against the check(s) of its property; prints one line per change
 cd /verif
-for d in seeded/*/; do
+for d in ${SEEDS:-seeded/*/}; do
   n=$(basename "$d")
   id=$(echo "$n" | cut -c1-3)
   ids=$(python3 - "$d/meta.json" "$id" <<'PY'
@@ -14,7 +14,7 @@ for i in ids:
 print(" ".join(seen))
 PY
 )
-  WT=/tmp/seedwt
+  WT=${SEEDWT:-/tmp/seedwt}
   [ -d "$WT" ] || git -C /repo worktree add -q --detach "$WT" HEAD
   git -C "$WT" checkout -q --detach "$(git -C /repo rev-parse HEAD)"; git -C "$WT" checkout -q -- .
   if ! git -C "$WT" apply --check "/verif/$d/patch.diff" 2>/dev/null; then echo "$n: PATCH-DOES-NOT-APPLY"; continue; fi
@@ -22,7 +22,7 @@ PY
   res=""
   for i in $ids; do
     out=$(VERIF_REPO="$WT" ./check "$i" 2>&1)
-    if echo "$out" | grep -q "^VIOLATION.*no-failing-input-found"; then r="weak"; elif echo "$out" | grep -q "^VIOLATION"; then r="CAUGHT"; else r="missed"; fi
+    if echo "$out" | grep "^VIOLATION" | grep -qv "no-failing-input-found"; then r="CAUGHT"; elif echo "$out" | grep -q "^VIOLATION"; then r="weak"; else r="missed"; fi
     res="$res $i=$r"
   done
   git -C "$WT" checkout -q -- .
